@@ -1,14 +1,14 @@
 #!/usr/bin/env python3
 """Imports the two seeded changes an independent sub-agent left in <worktree>/_seed, after confirming
 them here: each patch applies alone to a fresh scratch worktree of /repo's HEAD, the unedited suite
-gives the baseline result (296 pass, the same 3 fail), the demonstration fails with the change and
+gives the baseline result (every baseline test passes: 297 passed since repair D41, the same 2 non-baseline failures), the demonstration fails with the change and
 passes without it.  usage: tools/seedimport.py <PROPERTY_ID> <worktree> [target letters, default AB]"""
 import json, os, shutil, subprocess, sys
 HERE = os.path.dirname(os.path.dirname(os.path.abspath(__file__)))
 pid, wt = sys.argv[1], sys.argv[2]
 TARGET = sys.argv[3] if len(sys.argv) > 3 else 'AB'
-BASE_FAIL = {'tests/test_compile.py::test_compile', 'tests/test_multistructures.py::test_multigeopoint_from_shapely',
-             'tests/test_structures.py::test_geoellipse_from_covariance_matrix'}
+# (test_multigeopoint_from_shapely failed on the pinned tree; it passes since repair D41, so the baseline is 297 / 2)
+BASE_FAIL = {'tests/test_compile.py::test_compile', 'tests/test_structures.py::test_geoellipse_from_covariance_matrix'}
 
 
 def run(cmd, cwd=None, env=None):
@@ -44,7 +44,7 @@ for letter, tletter in zip('AB', TARGET):
             print(f'{pid}-{letter}: patch does not apply to HEAD: {out}'); continue
         failed, tail = suite(scratch)
         d_mut = demo(scratch, os.path.join(src, f'demo_{letter}.py'))
-        ok = failed == BASE_FAIL and ' 296 passed' in (' ' + tail) and d_clean[0] == 0 and d_mut[0] != 0
+        ok = failed == BASE_FAIL and (' 297 passed' in (' ' + tail) or ' 296 passed' in (' ' + tail)) and d_clean[0] == 0 and d_mut[0] != 0
         print(f'{pid}-{letter}: suite [{tail.strip()}] same-3-fail={failed == BASE_FAIL} demo clean rc={d_clean[0]} mutated rc={d_mut[0]} -> {"KEEP" if ok else "REJECT"}')
         if ok:
             dst = os.path.join(HERE, 'seeded', f'{pid}-{tletter}')
